@@ -571,6 +571,12 @@ def check_dict(ctx, nodes, key_len, tag):
     m = metered('dict', steps, lambda: HashMap.parse(root.begin_parse(), key_len))
     ctx.count('dict:' + ('ok' if m.exc is None else type(m.exc).__name__))
     ctx.count('dict-model:' + res.split('.')[0])
+    if not tag.startswith('shared') and not tag.startswith('bogus'):
+        # dictionaries without shared forks: the input bound of the property as written
+        nbytes = len(root.to_boc())
+        if m.lines > 400 * nbytes + 20000:
+            ctx.fail('dict-input-bound:other', f'HashMap.parse work is not bounded by the input size on a dictionary without shared forks ({tag})',
+                     inp, f'{m.lines} lines', f'<= {400 * nbytes + 20000} (400 per input byte + 20000)')
     if judge(ctx, 'dict', steps, m, inp, 'HashMap.parse'):
         lib_raised = m.exc is not None
         # output-bounded reading (c19_dict_output): the entries the model counts are the entries the library returns
@@ -581,6 +587,34 @@ def check_dict(ctx, nodes, key_len, tag):
         if res.startswith('done') and lib_raised and not isinstance(m.exc, RecursionError):
             ctx.count('dict:model-done-lib-raised')
     return m
+
+
+def dict_input_bound(ctx):
+    """The property as WRITTEN for dictionaries: work bounded by the length of the input.  The library (and the model, which
+    mirrors it) unfold shared forks once per path, so three families break that reading - recorded in known_findings.json, one key
+    each; every other dictionary in this run is additionally held to the input bound (`dict-input-bound:other`)."""
+    from pytoniq_core.boc.hashmap.hashmap import HashMap
+    depth = 14
+    over = ('11' + '0' + format(depth + 3, f'0{(depth + 2).bit_length()}b'), (depth, depth), True)     # hml_same of length depth+3 > remaining key depth+2
+    fams = [('shared-forks-entries', fam_dict_shared(depth, depth + 2, 'leaf'), depth + 2,
+             f'a {depth + 1}-cell dictionary whose forks reference the same child twice, read with key length {depth + 2}: 2^{depth} genuine entries'),
+            ('shared-forks-pruned-bottom', fam_dict_shared(depth, depth + 2, 'exotic'), depth + 2,
+             f'the same forks over ONE non-ordinary (pruned / library) bottom cell: 2^{depth} visits, EMPTY result'),
+            ('shared-forks-label-longer-than-key', fam_dict_shared(depth, depth + 2, 'exotic') + [over], depth + 2,
+             f'a root label longer than the key (hml_same n = key length + 1): the remaining key length goes negative, never meets a leaf, '
+             f'2^{depth} visits, empty result - the label violates {{n <= m}} and should be refused at once')]
+    for key, nodes, key_len, what in fams:
+        cells = dd_build(nodes)
+        root = cells[-1]
+        nbytes = len(root.to_boc())
+        lim = 400 * nbytes + 20000
+        m = measure(lambda: HashMap.parse(root.begin_parse(), key_len), max_lines=lim, max_seconds=WALL_CAP)
+        ctx.case(('dict-input-bound', key), sample={'op': 'dict-input-bound', 'family': key, 'bytes': nbytes, 'lines': m.lines})
+        ctx.count('dict-input-bound:' + key)
+        if m.aborted or m.lines > lim:
+            ctx.fail('dict-input-bound:' + key, f'HashMap.parse does work exponential in the input size: {what}',
+                     {'dict': [list(n) for n in nodes], 'key_len': key_len, 'tag': 'input-bound:' + key, 'bytes': nbytes},
+                     f'> {lim} lines ({m.lines} when stopped)', f'<= 400 lines per input byte + 20000 = {lim}')
 
 
 def valid_dict_cell(rng, key_len, n):
@@ -964,6 +998,7 @@ def run(ctx):
     for t in range(ctx.n(40, 400)):
         kl = rng.choice([1, 8, 32, 256])
         check_dict(ctx, fam_dict_bogus(rng, rng.choice([1, 5, 30, 200, 900]), kl), kl, f'bogus{t}')
+    dict_input_bound(ctx)
     # unary label of maximal length
     check_dict(ctx, [('0' + '1' * 1000 + '0', (), True)], 1023, 'unary1000')
     check_dict(ctx, [('0' + '1' * 1022, (), True)], 1023, 'unary-runs-out')
